@@ -253,7 +253,7 @@ def check_direct(ctx):
 
 
 def run(ctx):
-    for k in range(ctx.n(110, 1200)):
+    for k in range(ctx.n(150, 3000)):
         case = vario.gen_case(ctx.rng, nmax=30 if ctx.tier == 'quick' else 50, estimators=['matheron'])
         case['rebin'] = [None, 0.5, 0.3, 'median', 'mean', 'skip', 'skip', 'skip'][int(ctx.rng.integers(0, 8))]
         check_case(ctx, case)
